@@ -69,6 +69,7 @@ func expected(stream []byte) (frames []byte, readable string, n int, fault strin
 	for i := 0; i <= len(stream)+2; i++ {
 		m, err := h.FetchNextMessageFrame(pb)
 		if err != nil && err.Error() == "done" {
+			frames = expectedFrames(stream)
 			return
 		}
 		if m == nil {
@@ -76,12 +77,20 @@ func expected(stream []byte) (frames []byte, readable string, n int, fault strin
 			return
 		}
 		n++
-		if m.MessageType >= 0 && ref.IsFrame(m.RawData) {
-			frames = append(frames, m.RawData...)
-		}
 		readable += fmt.Sprintf("%s\n", m.String())
 	}
 	fault = "no progress"
+	return
+}
+
+// expectedFrames: the valid frames of the stream by the independent reference
+// segmenter (the types the implementation reports play no part).
+func expectedFrames(stream []byte) (frames []byte) {
+	for _, sg := range ref.Segment(stream) {
+		if sg.Type >= 0 {
+			frames = append(frames, sg.Raw...)
+		}
+	}
 	return
 }
 
@@ -207,7 +216,7 @@ func propC10() *harness.Prop {
 	return &harness.Prop{
 		ID:             "C10",
 		Rule:           "rtcmfilter.HandleMessages (the shipped function, in-package harness) under the controlled scheduler with harness-owned stdout, record and display writers whose every Write is a scheduling point. Schedule dimension: 9 small streams x {display,record} in {0,1}^2 x every interleaving of main, reader, framing, fan-out and 1-3 writer goroutines and every source chunking (state-key pruning; deviation bound 1/2 where the unbounded pass is cut). Input dimension: every sequence of <=2 (quick) / <=3 (thorough) segments from a 19-entry menu (valid frames, NMEA, UBX, junk with 0xD3, lone D3, bad leaders, truncations, corrupted frames) with display and record on, default schedule. plus scenarios in which single writes to the display log fail, and a stalled-writer scenario (24 distinct frames, the output writer blocks in its first Write until a timer thread lets it go, by default as late as possible), and scenarios in which the input ends in a hard read error instead of EOF, with attentive and with stalled writers (every frame read before the failure is still owed), and scenarios with a non-zero EOF tolerance configured and a source that reports EOF twice between frames or inside a frame and then carries on. Oracle at quiescence: stdout == concatenation of the valid frames of the sequential framing, record identical, display text == one String() entry per delivered message. Non-trivial = distinct schedule trace",
-		Assumptions:    []string{"dailylogger.New is redirected at build time to an in-memory sink (file naming and rotation belong to the go-tools dependency)", "which segments are 'valid frames as delimited by the framing rules' is taken from the implementation's own sequential framing filtered by the independent IsFrame predicate (differential oracle), as the statement defines", "judged at quiescence; whether the output is complete when the call returns is C11"},
+		Assumptions:    []string{"dailylogger.New is redirected at build time to an in-memory sink (file naming and rotation belong to the go-tools dependency)", "which segments are 'valid frames as delimited by the framing rules' is decided by the independent reference segmenter /verif/ref (C03 ties the implementation's framing to it); the readable log is compared with the implementation's own display of its sequential framing", "judged at quiescence; whether the output is complete when the call returns is C11"},
 		Scenarios:      scenariosC10,
 		QuickBudget:    60 * time.Second,
 		ThoroughBudget: 10 * time.Minute,
@@ -265,7 +274,7 @@ func scenariosC10(tier string) []*mcrt.Scenario {
 			}
 		}
 	}
-	for _, n := range []int{4095, 4096, 4097, 8193} {
+	for _, n := range []int{4095, 4096, 4097, 8193, 70001} {
 		bs := bigStream(n)
 		scs = append(scs, &mcrt.Scenario{Name: fmt.Sprintf("input=%dB default-schedule", n), DefaultOnly: true, Horizon: 4000000,
 			Body: body(bs, false, true, false, []int{0}), Check: checkC10(bs)})
@@ -449,7 +458,7 @@ func scenariosC11(tier string) []*mcrt.Scenario {
 			}
 		}
 	}
-	for _, n := range []int{4096, 4097} {
+	for _, n := range []int{4096, 4097, 70001} {
 		bs := bigStream(n)
 		wantB, _, _, faultB := expected(bs)
 		scs = append(scs, &mcrt.Scenario{Name: fmt.Sprintf("rtcmfilter input=%dB default-schedule", n), DefaultOnly: true, Horizon: 4000000,
